@@ -8,7 +8,8 @@ op lines the Go harness produced from the real chain (harness/cmd/c05).
   genesis <hash>                                   fresh store holding the genesis block (label b0)
   cfg p008 <0|1>                                   fork configuration: Proposal008 (executed-tx check) off/on
   tx <label>                                       declare a transaction
-  blk <label> <hash> <parent> <height> <totalQN> <pv> <txs|-> ok|badroot
+  blk <label> <hash> <parent> <height> <totalQN> <pv> <txs|-> ok|badroot|badreq <fixedReqId> <txReqIds|->
+  pv <pvA> <hashA> <pvB> <hashB> / rid <last> <reqs|->   direct streams of two pure functions
   pool <tx>                                        TxPool.AddTransaction
   add <label> | addnil                             BlockChain.AddBlockOnChain
   addc <label> <k> <s>                             … with a process death before write token k (s=1: inside the state commit)
@@ -90,6 +91,9 @@ def view (d : D) : String :=
 def parseTxs (d : D) (w : String) : Option (List Nat) :=
   if w == "-" then some [] else (w.splitOn ",").mapM d.tx?
 
+def parseNats (w : String) : Option (List Nat) :=
+  if w == "-" then some [] else (w.splitOn ",").mapM String.toNat?
+
 def fuelNote (s : St) : String := if s.fuelOut then " FUEL-OUT" else ""
 
 def doAdd (d : D) (b : Block) (budget : Option Nat) (sub : Nat) : D × String :=
@@ -123,15 +127,28 @@ def step (d : D) (line : String) : D × String :=
   | ["tx", l] =>
     if !d.live || (d.tx? l).isSome then (d, "bad-op")
     else ({ d with txs := d.txs ++ [(l, d.txs.length)] }, "ok")
-  | ["blk", l, h, par, height, qn, pv, txs, flag] =>
+  | ["blk", l, h, par, height, qn, pv, txs, flag, req, treqs] =>
     if !d.live || (d.block? l).isSome then (d, "bad-op") else
-    match ofHex? h, d.block? par, height.toNat?, qn.toNat?, pv.toNat?, parseTxs d txs with
-    | some bs, some p, some hh, some q, some v, some ts =>
-      if flag != "ok" && flag != "badroot" then (d, "bad-op") else
+    match ofHex? h, d.block? par, height.toNat?, qn.toNat?, pv.toNat?, parseTxs d txs, req.toNat?, parseNats treqs with
+    | some bs, some p, some hh, some q, some v, some ts, some rq, some trq =>
+      if flag != "ok" && flag != "badroot" && flag != "badreq" then (d, "bad-op") else
       let b : Block := { hash := beToNat bs, pre := p.hash, height := hh, totalQN := q, pv := v, txs := ts,
-                         valid := flag == "ok" }
+                         valid := flag != "badroot", reqId := rq, txReqs := trq }
       ({ d with blocks := d.blocks ++ [(l, b)], maxH := max d.maxH hh }, "ok")
-    | _, _, _, _, _, _ => (d, "bad-op")
+    | _, _, _, _, _, _, _, _ => (d, "bad-op")
+  | ["pv", pa, ha, pb, hb] =>
+    -- direct stream: chainPvGreatThanRemote(local, remote)
+    match pa.toNat?, ofHex? ha, pb.toNat?, ofHex? hb with
+    | some pa, some ha, some pb, some hb =>
+      let a : Block := { hash := beToNat ha, pre := 0, height := 0, totalQN := 0, pv := pa, txs := [], valid := true }
+      let b : Block := { hash := beToNat hb, pre := 0, height := 0, totalQN := 0, pv := pb, txs := [], valid := true }
+      (d, if pvGreater a b then "true" else "false")
+    | _, _, _, _ => (d, "bad-op")
+  | ["rid", last, reqs] =>
+    -- direct stream: getRequestIdFromTransactions(txs, last)["fixed"]
+    match last.toNat?, parseNats reqs with
+    | some l, some rs => (d, toString (requestIdFrom rs l))
+    | _, _ => (d, "bad-op")
   | ["pool", l] =>
     if !d.live || d.st.crashed then (d, "bad-op") else
     match d.tx? l with
